@@ -295,6 +295,22 @@ class MAAdapter(Adapter):
                 vec = np.array([7.0 * (i + 1) / 2.0 for i in range(w['L'])])
                 a[k1, k2] = vec
                 obs['set_both'] = bool(np.array_equal(a[k1, k2], vec) and np.array_equal(a[k2, k1], vec))
+                # the same pair function written the other ways a user writes one (a list, a tuple, a strided view, integers):
+                # what numpy accepts as the right-hand side of data[:, i, j] = v.  Same values, so the abstract step is the same.
+                wide = np.zeros((w['L'], 3))
+                wide[:, 1] = vec
+                ivec = np.arange(1, w['L'] + 1) * 7
+                for form, val, want in (('list', vec.tolist(), vec), ('tuple', tuple(vec.tolist()), vec), ('view', wide[:, 1], vec),
+                                        ('int', ivec, ivec.astype(float)), ('intlist', ivec.tolist(), ivec.astype(float)), ('array', vec, vec)):
+                    try:
+                        a[k1, k2] = val
+                        good = bool(np.array_equal(a[k1, k2], want) and np.array_equal(a[k2, k1], want))
+                    except (ValueError, TypeError) as e:
+                        good = False
+                    if not good:
+                        obs.setdefault('set_form', form)
+                        a.data[:, a.types.index(k1), a.types.index(k2)] = vec          # keep the walk on the specification's state
+                        a.data[:, a.types.index(k2), a.types.index(k1)] = vec
             elif act == 'AugItem':
                 T = a.types
                 a[T[l['t1'] - 1], T[l['t2'] - 1]] += 1.0           # the statement a user writes
@@ -346,6 +362,9 @@ class MAAdapter(Adapter):
                         {'expected_raises': label['raises'], 'observed_raises': obs['raises']}))
         if obs.get('set_both') is False:
             out.append(('SetItemSymmetric', {'what': 'a[t1,t2] = v is not readable from both (t1,t2) and (t2,t1)'}))
+        if obs.get('set_form'):
+            out.append(('SetItemSymmetric.' + obs['set_form'], {'what': 'a[t1,t2] = v with v given as %s (accepted by the array assignment the '
+                                                                 'setter is documented to perform) is refused or not readable from both orders' % obs['set_form']}))
         if obs.get('returns_self') is False:
             out.append(('InPlaceReturnsSelf', {}))
         if obs.get('ro_copy_ok') is False:
